@@ -290,6 +290,12 @@ func (eval Evaluator) evaluateInPlace(level int, el0 *rlwe.Ciphertext, el1 *rlwe
 			elOut.Value[i].CopyLvl(level, largest.Value[i])
 		}
 	}
+
+	// A receiver of larger degree than both operands: the components none of them has are zero
+	// (as in matchScaleThenEvaluateInPlace), not what the receiver held before.
+	for i := largest.Degree() + 1; i < elOut.Degree()+1; i++ {
+		elOut.Value[i].Zero()
+	}
 }
 
 func (eval Evaluator) matchScaleThenEvaluateInPlace(level int, el0 *rlwe.Ciphertext, el1 *rlwe.Element[ring.Poly], elOut *rlwe.Ciphertext, evaluate func(ring.Poly, uint64, ring.Poly)) {
